@@ -16,6 +16,7 @@ RULE = (
     "hole interiors, far points, and a (4nx+1)x(4ny+1) lattice over the bounding box.  Oracle: brute "
     "force p.intersects(point) over all reference polygons, lowest index.  Non-trivial: points hit by "
     ">= 2 cells, points in holes, points just outside a cell edge that hit nothing."
+    ' Also: grids of 10x20, 8x9, 6x7 cells and 42/81-face lattice meshes (the number of raw spatial-index hit lists that come back unsorted is counted), cells that overlap their neighbours, points a whole number of turns (+-360, +-720) away from a cell, and the deprecated spatial_index wrapper item by item.'
 )
 LEVEL_TEXT = ('every query point of a dataset-derived set (interiors, vertices, edge midpoints, +-1/16 off every edge, hole interiors, far points, a (4nx+1)x(4ny+1) lattice) on every dataset of the family list, against brute-force intersects + lowest index')
 LEVEL_NOTE = ('GEOS predicates exact on dyadic coordinates')
